@@ -63,10 +63,11 @@ static void gate_cases(const Env &E, bool all_rows) {
             const LweSample *arg[3]; LweSample *obj[3] = {x[0], x[1], x[2]};
             for (int q = 0; q < g.arity; q++) { if (pat[q] == 'R') arg[q] = r; else arg[q] = obj[eff[q]]; }
             bool rused = false; for (int q = 0; q < g.arity; q++) if (pat[q] == 'R') { if (!rused) lweCopy(r, x[eff[q]], E.lp); rused = true; }
-            if (!rused) { for (int i = 0; i < E.n; i++) r->a[i] = 0x5a5a5a5a; r->b = 0x5a5a5a5a; }
+            if (!rused) { for (int i = 0; i < E.n; i++) r->a[i] = 0x5a5a5a5a; r->b = 0x5a5a5a5a; r->current_variance = 0.125; }   // stale content of a re-used output object
             std::string before[3]; for (int q = 0; q < g.arity; q++) before[q] = bytes(arg[q], E.n);
             { std::vector<const void *> fr; for (int q = 0; q < g.arity; q++) if (pat[q] != 'R') { fr.push_back(arg[q]); fr.push_back(arg[q]->a); }
               Freeze fz(E.ep, fr); apply(g, r, g.arity > 0 ? arg[0] : nullptr, g.arity > 1 ? arg[1] : nullptr, g.arity > 2 ? arg[2] : nullptr, bits[0], E.ck); }
+            if (bytes(r, E.n) == want && memcmp(&r->current_variance, &rref->current_variance, 8)) violation(key, fmt("%s with aliasing pattern %s: same (a, b) but the variance annotation of the result object is %.17g, with distinct objects %.17g (stale content of a re-used result object)", g.name, pat.c_str(), r->current_variance, rref->current_variance));
             if (bytes(r, E.n) != want) violation(key, fmt("%s with aliasing pattern %s gives a different ciphertext than the call with distinct objects (decrypts to %d, plaintext %d)", g.name, pat.c_str(), lwePhase(r, E.s) > 0, g.truth(bits[eff[0]], g.arity > 1 ? bits[eff[1]] : 0, g.arity > 2 ? bits[eff[2]] : 0)));
             for (int q = 0; q < g.arity; q++) if (pat[q] != 'R' && bytes(arg[q], E.n) != before[q]) violation(key, fmt("%s modified its input #%d", g.name, q + 1));
             if (genstate() != gen0) violation(key, fmt("%s advanced the library random generator", g.name));
@@ -84,11 +85,11 @@ static void function_cases(ek::Set *S, const Epoch &kep) {
     TorusPolynomial *v = new_TorusPolynomial(N); TLweSample *acc = new_TLweSample(S->tp), *acc2 = new_TLweSample(S->tp); IntPolynomial *dec = new_IntPolynomial_array(S->gp->kpl, N);
     std::vector<int32_t> bara(S->n);
     auto post = [&](const std::string &key, const char *fn) { if (hash_bk(S->bk, S->bkFFT) != kh) violation(key, std::string(fn) + " modified the bootstrapping/key-switching key or its parameters"); if (genstate() != gen0) violation(key, std::string(fn) + " advanced the library random generator"); eval(1); nontrivial(1); };
-    for (int rep = 0; rep < 4; rep++) {
-        for (int i = 0; i < S->n; i++) { x->a[i] = rep == 0 ? INT32_MIN : rep == 1 ? INT32_MAX : (Torus32)splitmix(sx); bara[i] = (int)(splitmix(sx) % 2048); } x->b = (Torus32)splitmix(sx);
-        for (int i = 0; i < kN; i++) xe->a[i] = rep == 0 ? INT32_MIN : (Torus32)splitmix(sx); xe->b = (Torus32)splitmix(sx);
-        for (int j = 0; j < N; j++) v->coefsT[j] = rep == 0 ? INT32_MIN : rep == 1 ? INT32_MAX : (Torus32)splitmix(sx);
-        for (int i = 0; i <= S->k; i++) for (int j = 0; j < N; j++) acc->a[i].coefsT[j] = rep == 0 ? INT32_MIN : rep == 1 ? INT32_MAX : (Torus32)splitmix(sx);
+    for (int rep = 0; rep < 5; rep++) {   // rep 4: all-zero masks / polynomials (noiseless trivial samples)
+        for (int i = 0; i < S->n; i++) { x->a[i] = rep == 4 ? 0 : rep == 0 ? INT32_MIN : rep == 1 ? INT32_MAX : (Torus32)splitmix(sx); bara[i] = (int)(splitmix(sx) % 2048); } x->b = (Torus32)splitmix(sx);
+        for (int i = 0; i < kN; i++) xe->a[i] = rep == 4 ? 0 : rep == 0 ? INT32_MIN : (Torus32)splitmix(sx); xe->b = (Torus32)splitmix(sx);
+        for (int j = 0; j < N; j++) v->coefsT[j] = rep == 4 ? 0 : rep == 0 ? INT32_MIN : rep == 1 ? INT32_MAX : (Torus32)splitmix(sx);
+        for (int i = 0; i <= S->k; i++) for (int j = 0; j < N; j++) acc->a[i].coefsT[j] = (rep == 4 && i < S->k) ? 0 : rep == 0 ? INT32_MIN : rep == 1 ? INT32_MAX : (Torus32)splitmix(sx);
         std::string bx = bytes(x, S->n), bxe = bytes(xe, kN), bv((const char *)v->coefsT, N * 4); std::vector<int32_t> bara0 = bara; uint64_t hacc = hash_tlwe(acc, N, S->k, 1);
         struct F { const char *name; std::function<void()> call; };
         std::vector<F> fs = {
